@@ -25,7 +25,16 @@ var properties = []Property{
 		NotDecided: "completeness of acceptance (that every sentence of the grammar is accepted) beyond the operator table; the language equation itself",
 		LevelText:  "Necessary conditions for 'rejects everything else' and 'no token silently skipped', checked over every path of the parser code; each violated obligation names the construct that makes some malformed token sequence pass or be reinterpreted.",
 		LevelNote:  "Trusted: go/types+go/ssa. The typestate treats any type test of the current token as 'seen'. Acceptance completeness is only covered through GRAM.table/chain.",
-	}, {ID: "C03"}, {ID: "C04"}, {ID: "C05"}, {ID: "C06"}, {ID: "C07"}, {ID: "C08"}, {ID: "C09"}, {ID: "C10"},
+	}, {ID: "C03"}, {ID: "C04"}, {ID: "C05"}, 
+	{ID: "C06", Title: "Variant operators implement the arithmetic of the first operand's type",
+		Rules:     []string{"OPS.cell", "OPS.null", "OPS.convert", "OPS.override", "OPS.in", "PANIC.div", "PANIC.shift", "GRAM.emptycase"},
+		Technique: "normalised SSA expression trees per (operator × first-operand type) cell compared with the operator matrix of the statement; boolean cells and the Null policy folded into truth tables; dominating-guard check for division and shifts",
+		Explanation: "For the 21 operator methods (resolved through IVariantOperations, shared by both managers — checked) the checker extracts every cell as a normalised expression tree from go/ssa (temporaries, parentheses, if/switch spelling and commutative operand order disappear; short-circuit boolean code becomes a truth table) and compares it with host-operator(As<T>(value1), As<T>(Convert(value2, type of value1))); the Null policy is read off as a decision table; conversions and their error propagation, In's element test and GetElement's index conversion are checked; every integer division and signed shift must be dominated by a zero / range test.",
+		NotDecided: "numeric results of the host operators (Go semantics trusted), NaN/overflow behaviour, string collation",
+		LevelText:  "Table agreement between the code's operator cells and the matrix the statement prescribes, on every run, for all 92 required cells and all null-policy rows; plus a sound dominating-guard argument for the two crash classes (division by zero, negative shift). A deviating cell is a concrete wrong result for some operand pair.",
+		LevelNote:  "Trusted: go/ssa, Go operator semantics. The expected matrix is written from the statement and confirmed by reading. Extra cells beyond the matrix are only type-checked.",
+	},
+	 {ID: "C07"}, {ID: "C08"}, {ID: "C09"}, {ID: "C10"},
 	{ID: "C11"}, {ID: "C12"}, {ID: "C13"}, {ID: "C14"}, {ID: "C15"}, {ID: "C16"}, {ID: "C17"}, {ID: "C18"}, {ID: "C19"}, {ID: "C20"},
 }
 
